@@ -1,10 +1,12 @@
 from .common import COMMON_ASSUME
 
 CFG = {
+    "extra_props_modules": ["RpmVerif.Props.C04Readside"],
     "cleanup_globs": ["work/c04-mut-*.bin"],
     "props_module": "RpmVerif.Props.C04",
     "required_theorems": ["RpmVerif.C04.parsePackage_total", "RpmVerif.C04.parseMetadata_total", "RpmVerif.C04.decode_total",
-                          "RpmVerif.C04.accepted_count_bounded", "RpmVerif.C04.accepted_sizes_bounded", "RpmVerif.C04.getFileEntries_total"],
+                          "RpmVerif.C04.accepted_count_bounded", "RpmVerif.C04.accepted_sizes_bounded", "RpmVerif.C04.getFileEntries_total",
+                          "RpmVerif.C04.readside_total", "RpmVerif.C04.readerNew_total", "RpmVerif.C04.iterate_total", "RpmVerif.C04.keyIds_total"],
     "trivial_branches": [],
     "rule": "every case runs the whole read side (Package::parse, PackageMetadata::parse, all 40 accessors, verify_digests, verify_signature with a "
             "rejecting verifier, signature_key_ids, files() iteration on uncompressed payloads) in a forked child with a panic hook, RLIMIT_AS = 3 GiB, "
